@@ -1,6 +1,7 @@
 CONFIG = dict(
-    coqfiles=["Props/C16.v"],
+    coqfiles=["Props/C16.v", "Props/C16N.v"],
     n_quick=12000, n_thorough=600000, workers_quick=8,
+    sub=["C16N"],
     rule="object of 0-24 bytes under one of the 8 digest functions (12% with a digest whose size or hash is wrong); a STACK of 1-3 WithErrorHandler decorators (35% depth >= 2) "
          "over an original buffer and 0-3 replacement buffers, each carrying the object (12%: truncated / extended / one byte changed / unrelated) cut into <= 8 chunks incl. empty chunks, "
          "an I/O error at a random event position in every buffer but the last; buffer kinds: CAS chunk-reader buffer, CAS reader buffer (EOF attached to data or on its own call), "
@@ -14,7 +15,7 @@ CONFIG = dict(
               "every ErrorHandler is a scripted oracle (list of answers); a handler asked more often than scripted answers with ABORTED",
               "stacks are modelled flattened (run_stack): one plain reader below the active levels, which all hold the same delivered offset; finished levels have received Done; "
               "a stack of one handler is additionally compared with the older model of the single handler (run_case), the subject of the stitching theorems",
-              "replacement buffers are plain buffers: casErrorHandlingBuffers (or other decorated buffers) returned BY a handler as replacement are not modelled",
+              "in run_stack replacement buffers are plain buffers; replacements that are themselves casErrorHandlingBuffers (WithErrorHandler around a stream, to any depth) are the sub-check C16N (Buffer/EHNest.v, harness/c16n.go), whose cases are folded into this check",
               "validated byte slices handed to WithErrorHandler/returned by OnError are trusted by the code; the monitor's validity clauses apply when they hold content that is valid for the digest",
               "io.CopyN and io.ReadFull drop an error that a reader returns together with the bytes completing their request; scripted readers that attach an error to data and do not repeat it are excluded from the cases (attached EOF is included)",
               "NewValidatedBufferFromReaderAt is not modelled; ToProto/CloneStream/WithTask not modelled",
